@@ -300,7 +300,7 @@ Definition open_telstate_with (prefixes_on : list string -> string -> list strin
       let ps := prefixes_on [""] cb streams in
       if negb (check_stream_type (astr (aget st vals ps l0_type_key))) then Err 3
       else if ds_reads_chunk_info (m_store m) (has_ts m) then
-        match aget st vals ps fl_chunk_info_key with
+        match aget st vals ps ds_chunk_info_key with
         | Some (id, AInfo d rest) =>
             let fs := if upgrade_on m then
                         all_some (map (fstream_of_with prefixes_on st vals ps cb)
